@@ -284,7 +284,7 @@ func checkC16(c *Ctx) {
 				}
 			}
 		}
-		path := []string{"data/maps/Test/scripts.pory", `C:\proj\scripts.pory`, "a b.pory"}[i%3]
+		path := []string{"data/maps/Test/scripts.pory", `C:\proj\scripts.pory`, "a b.pory", "100%/s%d.pory", "../up/./x.pory", "dir/%s%v#1.pory"}[i%6]
 		o := Opts{Optimize: i%2 == 0, AutoVar: av, LineMarkers: true, InputPath: path, FontConfig: repoFontConfig}
 		oPlain, oNoPath := o, o
 		oPlain.LineMarkers = false
